@@ -1,5 +1,5 @@
 (** C02 — After writes stop and peers reconnect, every replica receives every write. *)
-From Orbit Require Import Spec.Statements Proofs.NetProofs Proofs.ReplicatorProofs.
+From Orbit Require Import Spec.Statements Proofs.NetProofs Proofs.ReplicatorProofs Proofs.NetHolesProofs.
 
 (** Set-level network model: for EVERY history of writes interleaved with arbitrary gains
     (a replica may at any time merge any set of existing entries: whatever announcements
@@ -52,3 +52,65 @@ Theorem C02_refuted_without_remote_heads :
     ~ same_setN (n_log (exchange U (mkNR (n_log a) []) b)) (n_log (exchange U a b)).
 Proof. exact net_refuted_without_remote_heads. Qed.
 Print Assumptions C02_refuted_without_remote_heads.
+
+(** Second network model ([Model/NetHoles.v]), faithful to what the replicator does when a log
+    has a HOLE (an entry is held, one of its link targets is not): a replication request stops
+    at every hash that is already in the log, fetches succeed or fail per hash in any way
+    (any loss, duplication, reordering, partition), failed hashes are remembered and retried by
+    the next request, a restart forgets them and rebuilds the log from the cached heads under
+    any fetch outcome.  With the mechanism of this tree (an unlimited Load hands the link
+    targets it could not load to the replicator, [rm] = true): for EVERY history of writes,
+    requests and restarts on n >= 2 replicas, after the final phase (every ordered pair
+    exchanges cached heads, every fetch succeeds) every replica's log is exactly the set of all
+    written entries: all replicas are equal, no link target is missing, nothing is left
+    failed — hence, by C01, the same state. *)
+Theorem C02_converges_with_holes :
+  forall n steps a b ra rb,
+    (2 <= n)%nat ->
+    let s := hfinal true (hrun true steps (hinit n)) in
+    nth_error (h_reps s) a = Some ra -> nth_error (h_reps s) b = Some rb ->
+    same_setN (h_log ra) (map u_hash (h_univ s)) /\
+    same_setN (h_log ra) (h_log rb) /\
+    dangling (h_univ s) (h_log ra) = [] /\
+    h_failed ra = [].
+Proof. exact holes_converge. Qed.
+Print Assumptions C02_converges_with_holes.
+
+(** The invariant it rests on, in every reachable state and on every replica: every link
+    target of a held entry is held or remembered as failed (so the next request retries it);
+    only written entries are held; every entry is held by its writer; every held entry is in
+    the ancestry of a cached head. *)
+Theorem C02_hole_invariant :
+  forall n steps i rp,
+    let s := hrun true steps (hinit n) in
+    nth_error (h_reps s) i = Some rp ->
+    (forall y, In y (dangling (h_univ s) (h_log rp)) -> In y (h_failed rp)) /\
+    (forall h, In h (h_log rp) -> In h (map u_hash (h_univ s))) /\
+    (forall h, In (h, i) (h_owner s) -> In h (h_log rp)) /\
+    (forall h, In h (h_log rp) -> In h (anc_set (h_univ s) (h_cached rp))).
+Proof. exact holes_invariant. Qed.
+Print Assumptions C02_hole_invariant.
+
+(** A restart never loses an entry of the log, with or without the record: the cached heads
+    cover the log through held entries, whose blocks are in the replica's own block store. *)
+Theorem C02_restart_keeps_entries :
+  forall rm n steps r ok rp rp',
+    let s := hrun rm steps (hinit n) in
+    nth_error (h_reps s) r = Some rp ->
+    nth_error (h_reps (hstep_run rm s (HRestart r ok))) r = Some rp' ->
+    forall h, In h (h_log rp) -> In h (h_log rp').
+Proof. exact holes_restart_keeps. Qed.
+Print Assumptions C02_restart_keeps_entries.
+
+(** Without the record ([rm] = false: Load forgets what it could not load) the property
+    fails: a request fetches an entry but not its ancestor, the replica restarts while the
+    ancestor is unreachable, and in the final phase every head it is told about is already in
+    its log — it misses a written entry for ever. *)
+Theorem C02_refuted_restart_forgets_missing :
+  exists n steps a ra h,
+    (2 <= n)%nat /\
+    let s := hfinal false (hrun false steps (hinit n)) in
+    nth_error (h_reps s) a = Some ra /\
+    In h (map u_hash (h_univ s)) /\ ~ In h (h_log ra).
+Proof. exact holes_refuted_without_record. Qed.
+Print Assumptions C02_refuted_restart_forgets_missing.
